@@ -262,7 +262,7 @@ def spec_struct(spec):
                 if isinstance(v, np.ndarray):
                     v = ("nd", v.shape, np.round(v, 9).tobytes())
                 elif isinstance(v, lw.Parameter):
-                    v = ("P", id(v), repr(v.get()), repr(v.min_bound), repr(v.max_bound), v.label)
+                    v = ("P", repr(v.get()), repr(v.min_bound), repr(v.max_bound), v.label)
                 elif isinstance(v, dict):
                     v = tuple(v.items())
                 elif isinstance(v, list):
@@ -349,3 +349,61 @@ def emulator_family(env, tier="quick"):
 def visible_inputs(c, max_photons):
     from . import ref_fock
     return ref_fock.basis_upto(c.input_modes, max_photons)
+
+
+# ---------------------------------------------------------------------------
+# rich construction alphabet (C08, C09, C19): legality decided by the real code,
+# a refused call is simply skipped (its own correctness is C01/C02/C08 business)
+# ---------------------------------------------------------------------------
+def rich_alphabet(n, env, subs=("bs2", "h3mid", "h3io", "h4desc", "lossy", "grp")):
+    o = []
+    for nm in subs:
+        for m in range(0, n - 1):
+            for g in (False, True):
+                o.append(("add", nm, m, g))
+    o += [("bs", 0, 1, env.R2, "Rx", 0), ("bs", 0, n - 1, env.R[1], "H", 0), ("bs", n - 1, 0, env.R[1], "H", 0),
+          ("bs", n - 1, 1, env.R2, "Rx", 0), ("bs", 1, n - 1, env.R2, "Rx", env.L2),
+          ("ps", n - 1, env.PH[0], 0), ("ps", 0, env.PH[1], env.L2), ("loss", 1, env.L[1]),
+          ("sw", ((0, n - 1), (n - 1, 0))), ("sw", ((0, 1), (1, 2), (2, 0))), ("sw", ((1, 2), (2, 1))),
+          ("uni", 2, 1, False), ("uni", 3, 0, True), ("bar", None), ("bar", (1,)),
+          ("her", 1, 1, n - 1), ("her", 0, 0, 0), ("her", 2, n - 1, 1),
+          ("bsP", 0, 2), ("psP", 1, True), ("psP", 0, False), ("lossP", n - 1), ("bslossP", 1, 0)]
+    return o
+
+
+def construct(n, prog, env):
+    """Build the circuit of a program; refused calls are skipped. Returns
+    (circuit, params, n_applied)."""
+    from .props.c02 import make_sub
+    c = lw.Circuit(n)
+    params = []
+    applied = 0
+    for op in prog:
+        op = tuple(op)
+        k = op[0]
+        try:
+            if k == "add":
+                c.add(make_sub(op[1], env)[0], op[2], group=op[3])
+            elif k == "her":
+                c.herald(op[1], op[2], op[3])
+            elif k == "bsP":
+                p = lw.Parameter(env.R2, label="r%d" % len(params)); params.append(p)
+                c.bs(op[1], op[2], reflectivity=p)
+            elif k == "psP":
+                p = lw.Parameter(env.PH[0], label=("phi%d" % len(params)) if op[2] else None); params.append(p)
+                c.ps(op[1], p)
+            elif k == "lossP":
+                p = lw.Parameter(env.L2, bounds=[0, 1], label="l%d" % len(params)); params.append(p)
+                c.loss(op[1], p)
+            elif k == "bslossP":
+                p = lw.Parameter(env.L[1]); params.append(p)
+                c.bs(op[1], op[2], loss=p)
+            else:
+                if k == "sw":
+                    op = ("sw", tuple(tuple(x) for x in op[1]))
+                c = apply_impl(c, op, env)
+            applied += 1
+        except REJECT_TYPES:
+            if k.endswith("P"):
+                params.pop()
+    return c, params, applied
